@@ -123,6 +123,10 @@ func (d *PathDecoder) candidatesFromHooks(ctx context.Context, attr *hclsyntax.A
 		// Since text edits only support a single line, we're resetting the End
 		// position here.
 		editRng.End = pos
+		if editRng.Start.Byte > pos.Byte {
+			// the placeholder of a missing value can sit after the cursor
+			editRng.Start = pos
+		}
 	}
 	prefixRng := attr.Expr.Range()
 	prefixRng.End = pos
